@@ -122,7 +122,7 @@ type c04Expect struct {
 // expectAssign: target type t receives value v.
 func expectAssign(t *gen.Type, v c04Val) c04Expect {
 	switch v.kind {
-	case "var", "expr-call":
+	case "var", "expr-call", "var-elem":
 		ok := t.Eq(v.t) || t.K == gen.Any
 		return c04Expect{accept: ok, typeofS: dynTypeof(t, v.t)}
 	case "const", "expr-concat", "expr-slice", "expr-group", "expr-index", "expr-repeat":
@@ -175,6 +175,10 @@ func c04Values(types []*gen.Type) []c04Val {
 			}
 			out = append(out, c04Val{kind: "expr-index", t: t, src: "[" + lit + "][0]"})
 		}
+		// element, field and loop element of a nested composite variable: like a variable of type t
+		out = append(out, c04Val{kind: "var-elem", t: t, src: "na" + name + "[0]", decl: "na" + name + ":[]" + t.String() + "\n"})
+		out = append(out, c04Val{kind: "var-elem", t: t, src: "nm" + name + ".k", decl: "nm" + name + ":{}" + t.String() + "\n"})
+		out = append(out, c04Val{kind: "var-elem", t: gen.ArrOf(t), src: "nn" + name + "[:]", decl: "nn" + name + ":[]" + t.String() + "\n"})
 		// function result of type t: like a variable
 		out = append(out, c04Val{kind: "expr-call", t: t, src: "(f" + name + ")", decl: "func f" + name + ":" + t.String() + "\n    r:" + t.String() + "\n    return r\nend\n"})
 		// literal containing a variable of type t
@@ -369,6 +373,26 @@ func c04Run(c *core.Ctx, i int) {
 			c.Cover("value-kind", v.kind)
 			src := c04Program(ctx, t, v)
 			src = strings.ReplaceAll(src, "(zerov)", zeroLit(t))
+			if v.kind == "var-elem" {
+				// the containers are empty at run time: only acceptance is judged, the use is guarded
+				ts := t.String()
+				switch ctx {
+				case "assign":
+					src = v.decl + "x:" + ts + "\nif false\n    x = " + v.src + "\nend\nprint (typeof x)\n"
+				case "param":
+					src = v.decl + "func fn p:" + ts + "\n    print (typeof p)\nend\nif false\n    fn " + v.src + "\nend\n"
+				case "variadic":
+					src = v.decl + "func fn p:" + ts + "...\n    print (len p)\nend\nif false\n    fn " + v.src + " " + v.src + "\nend\n"
+				case "return":
+					src = v.decl + "func fn:" + ts + "\n    return " + v.src + "\nend\nif false\n    x := (fn)\n    print (typeof x)\nend\n"
+				case "element":
+					src = v.decl + "arr:[]" + ts + "\nif false\n    arr[0] = " + v.src + "\nend\nprint (typeof arr)\n"
+				case "field":
+					src = v.decl + "m:{}" + ts + "\nif false\n    m.k = " + v.src + "\nend\nprint (typeof m)\n"
+				case "inferred":
+					continue
+				}
+			}
 			var exp c04Expect
 			if ctx == "inferred" {
 				// independent of t: run once per value (for the first target type only)
@@ -381,6 +405,9 @@ func c04Run(c *core.Ctx, i int) {
 				exp = expectAssign(t, v)
 				if ctx == "element" {
 					exp.typeofS = "[]" + t.String()
+				}
+				if v.kind == "var-elem" {
+					exp.typeofS = ""
 				}
 			}
 			c04Judge(c, cell, src, exp)
